@@ -66,6 +66,13 @@ Theorem C13_source_block_by : forall look tm a c o v, look a = option_map State.
 Proof. exact SrcTie2P.BlockBy_evaluate_tie. Qed.
 
 
+(* ---- app stage: the executable judgement of coq/Check is sound for the model on every scenario of the profile, and transfers
+   to every trace that agrees with the model's run ---- *)
+From BEI Require Proofs.JudgeC13tP.
+Theorem C13_app_judgement_transfer : forall sc t, JudgeC13bP.profile_C13b sc = true -> App.agree_full (sc, t) = true -> C13c.ok (sc, t) = 0%Z.
+Proof. exact JudgeC13tP.C13_app_judgement_transfer. Qed.
+
+
 Print Assumptions C13_bind_order.
 Print Assumptions C13_rebind_extends.
 Print Assumptions C13_one_evaluation_per_binding.
@@ -77,3 +84,4 @@ Print Assumptions C13_app_judgement_sound_upto6.
 Print Assumptions C13_app_judgement_sound.
 Print Assumptions C13_source_chord.
 Print Assumptions C13_source_block_by.
+Print Assumptions C13_app_judgement_transfer.
